@@ -177,6 +177,14 @@ func zzC14(mode int) {
 	} else if vBool("verifierRejects") {
 		outcome = 2
 	}
+	// a verifier that rejects a token may still hand back what it decoded (as JWT libraries do): the error decides
+	withInfo := vBool("rejectingVerifierAlsoReturnsInfo")
+	infoWithErr := func() *TokenInfo {
+		if withInfo {
+			return info
+		}
+		return nil
+	}
 	calls := 0
 	var gotToken string
 	verifier := func(ctx context.Context, token string, req *http.Request) (*TokenInfo, error) {
@@ -188,11 +196,11 @@ func zzC14(mode int) {
 		case 1:
 			return nil, nil
 		case 2:
-			return nil, errInvalid
+			return infoWithErr(), errInvalid
 		case 3:
-			return nil, errOAuth
+			return infoWithErr(), errOAuth
 		}
-		return nil, errOther
+		return infoWithErr(), errOther
 	}
 
 	var opts *RequireBearerTokenOptions
